@@ -81,10 +81,11 @@ def parseOutN (s : String) : Option (List OutW) :=
     pure (List.replicate k w)
   | _ => none
 
-/-- line content `msgkey:lvl:site:tr` -/
-def parseLine (m l s t : String) : Option Line := do
+/-- line content `msgkey:lvl:file:line:tr` (file: id of the source file, line: its line number) -/
+def parseLine (m l f n t : String) : Option Line := do
   let tr ← nat? t
-  pure { msg := ← nat? m, lvl := ← nat? l, site := ← nat? s, trace := if tr != 0 then some [] else none }
+  pure { msg := ← nat? m, lvl := ← nat? l, file := ← nat? f, line := ← nat? n,
+         trace := if tr != 0 then some [] else none }
 
 def setLast (l : List (Nat × Nat)) (g v : Nat) : List (Nat × Nat) :=
   (g, v) :: l.filter (fun x => x.1 != g)
@@ -105,16 +106,16 @@ def wtoken (d : DS) (tok : String) : Except String DS :=
   | ["empty"] => applyEv d .empty
   | ["timer"] => applyEv d .timer
   | ["ftimeout"] => applyEv d .ftimeout
-  | ["W", m, l, s, t, dp] =>
-    match parseLine m l s t, nat? dp with
+  | ["W", m, l, f, n, t, dp] =>
+    match parseLine m l f n t, nat? dp with
     | some ln, some dups =>
       match d.expW with
       | [] => .error "write-unpredicted"
       | (el, ed) :: rest =>
         if el == ln && ed == dups then .ok { d with expW := rest } else .error "write-differs"
     | _, _ => .error "bad-token"
-  | [k, id, m, l, s, t] =>
-    match parseLine m l s t, splitC id '.' with
+  | [k, id, m, l, f, n, t] =>
+    match parseLine m l f n t, splitC id '.' with
     | some ln, [g, q] =>
       match nat? g, nat? q with
       | some gi, some qi =>
